@@ -38,10 +38,30 @@ BOOT_S = 6.0            # extra allowance when the session's worker thread may s
 LONG = 7000000          # loop iterations: well over 10 s in the debug build
 
 
-def long_prog(tag, n=LONG):
+LONG_SHAPES = ("while", "nested-for", "recursion", "for-with-calls")
+
+
+def long_prog(tag, n=LONG, shape="while"):
+    """A program that prints started-<tag>, then runs for well over 10 s in the debug build, in one of several shapes of
+    long-running code (the interrupt flag must be observed in all of them): a while loop, nested for loops with an
+    arithmetic body and no call, deep-and-wide recursion, for loops whose body calls a function."""
     pr = N.Prog()
     pr.p("started-" + tag)
-    pr.spin("w_" + tag.replace("-", "_"), n)
+    v = tag.replace("-", "_")
+    if shape == "nested-for":
+        pr.src.append("let r_%s = [0, 1, 2, 3, 4, 5, 6, 7, 8, 9] let t_%s = 0 "
+                      "for a_%s in r_%s { for b_%s in r_%s { for c_%s in r_%s { for d_%s in r_%s { for e_%s in r_%s { for f_%s in r_%s { "
+                      "for g_%s in r_%s { t_%s = t_%s + a_%s * b_%s - c_%s } } } } } } }"
+                      % (v, v, v, v, v, v, v, v, v, v, v, v, v, v, v, v, v, v, v, v, v))
+    elif shape == "recursion":
+        pr.src.append("fun rec_%s(d) { if d == 0 { 1 } else { rec_%s(d - 1) + rec_%s(d - 1) } } rec_%s(40)" % (v, v, v, v))
+    elif shape == "for-with-calls":
+        pr.src.append("fun inc_%s(x) { x + 1 } let r_%s = [0, 1, 2, 3, 4, 5, 6, 7, 8, 9] let t_%s = 0 "
+                      "for a_%s in r_%s { for b_%s in r_%s { for c_%s in r_%s { for d_%s in r_%s { for e_%s in r_%s { for f_%s in r_%s { "
+                      "for g_%s in r_%s { t_%s = inc_%s(t_%s) } } } } } } }"
+                      % (v, v, v, v, v, v, v, v, v, v, v, v, v, v, v, v, v, v, v, v))
+    else:
+        pr.spin("w_" + v, n)
     pr.p("END-" + tag)
     pr.src.append("7")
     return pr
@@ -77,7 +97,9 @@ class Round:
 
     def start_long(self, s, **kw):
         rid = self.rid("L")
-        pr = long_prog(rid)
+        shape = self.rng.choice(LONG_SHAPES)
+        self.stat("long eval shape " + shape)
+        pr = long_prog(rid, shape=shape)
         self.cl.send(self.eval(s, pr, rid, may_interrupt=True, **kw))
         if not self.cl.wait_out(rid, "started-" + rid, 25):
             self.problems.append(("long-eval-did-not-start", rid))
